@@ -155,7 +155,7 @@ func wellFormedEntryOpts() progOpts {
 // test could get wrong.
 func genGroupingCorner(r *rand.Rand) *Program {
 	p := &Program{Kinds: map[string]int{"grouping-corner": 1}}
-	corner := []string{"a\\x5c", "b\\\\", "c", "d\\|e", "f|g", "(?:h|i)j", "k\\(", "\\)l", "m[|]", "n\\x7c", "o\\x5c\\x5c", "p\\\\\\|q", "(r)", "s\\x5c|t"}
+	corner := []string{"a\\x5c", "b\\\\", "c", "d\\|e", "f|g", "(?:h|i)j", "k\\(", "\\)l", "m[|]", "n\\x7c", "o\\x5c\\x5c", "p\\\\\\|q", "(r)", "s\\x5c|t", "foo\\)", "bar\\)", "u\\)", "\\(v", "w\\\\\\)"}
 	var lines []string
 	if chance(r, 0.2) {
 		lines = append(lines, "##!+ "+pick(r, []string{"s", "i"}))
